@@ -31,7 +31,7 @@ import (
 	"github.com/prometheus/alertmanager/types"
 )
 
-// C20 (payload): every batch of <= 3 alerts (3 label/annotation shapes x firing/resolved, every order) x
+// C20 (payload): every batch of <= 3 alerts (5 label/annotation shapes x firing/resolved, every order) x
 // max_alerts in {0,1,2} through the real webhook notifier to an in-process HTTP server. The JSON lists exactly
 // the first min(n, max_alerts) alerts of the batch with their own status, truncatedAlerts is the rest, status is
 // firing iff a listed alert fires, common labels / annotations are the intersection over the listed alerts.
@@ -46,6 +46,9 @@ var c20Shapes = []c20Shape{
 	{"A", map[string]string{"alertname": "A", "sev": "crit", "shared": "1"}, map[string]string{"summary": "s", "runbook": "r1"}},
 	{"B", map[string]string{"alertname": "B", "sev": "crit", "shared": "1", "extra": "x"}, map[string]string{"summary": "s", "runbook": "r2"}},
 	{"C", map[string]string{"alertname": "C", "sev": "warn", "shared": "1"}, map[string]string{"summary": "other"}},
+	// one of the two common sets runs empty early while the other still has to shrink:
+	{"D", map[string]string{"alertname": "D", "sev": "crit", "shared": "2"}, map[string]string{}},                     // no annotations at all
+	{"E", map[string]string{"alertname": "E"}, map[string]string{"summary": "s", "runbook": "r1"}}, // no label in common with anything
 }
 
 type c20Msg struct {
@@ -125,7 +128,7 @@ func TestVerifC20Payload(t *testing.T) {
 		if len(cur) == 3 {
 			return
 		}
-		for s := 0; s < 3; s++ {
+		for s := 0; s < len(c20Shapes); s++ {
 			if used&(1<<s) != 0 {
 				continue
 			}
@@ -242,8 +245,8 @@ func TestVerifC20Payload(t *testing.T) {
 	}
 	R.Transitions = R.Executions
 	R.Exhaustive = true
-	R.Bound = fmt.Sprintf("%d ordered batches of 1..3 distinct alerts (3 label/annotation shapes x firing/resolved) x max_alerts {0,1,2}, real webhook notifier over loopback HTTP", len(batches))
-	R.Sample(map[string]any{"shapes": []string{"A{sev=crit,shared=1}", "B{sev=crit,shared=1,extra=x}", "C{sev=warn,shared=1}"}})
+	R.Bound = fmt.Sprintf("%d ordered batches of 1..3 distinct alerts (5 label/annotation shapes x firing/resolved) x max_alerts {0,1,2}, real webhook notifier over loopback HTTP", len(batches))
+	R.Sample(map[string]any{"shapes": []string{"A{sev=crit,shared=1}", "B{sev=crit,shared=1,extra=x}", "C{sev=warn,shared=1}", "D{sev=crit,shared=2; no annotations}", "E{alertname only}"}})
 	R.Write()
 }
 
